@@ -3,7 +3,9 @@
 package h4chain_test
 
 import (
+	"bytes"
 	"fmt"
+	"sort"
 
 	"github.com/New-JAMneration/JAM-Protocol/internal/types"
 	"github.com/New-JAMneration/JAM-Protocol/internal/utilities"
@@ -288,34 +290,83 @@ var mutations = []mutation{
 		return true
 	}},
 	{name: "verdict-already-judged", stage: 4, apply: func(ru *run, p *chainBlock, b *types.Block, offenders *[]types.Ed25519Public) bool {
+		// a second, otherwise fully valid verdict on a report that is already in one of the three sets, of the
+		// same or of ANOTHER class (with the culprits / fault that class needs): accepting it would put the report
+		// into two sets
 		psi := p.state.Psi
-		var target *types.WorkReportHash
-		for _, l := range [][]types.WorkReportHash{psi.Wonky, psi.Good, psi.Bad} {
+		sets := [][]types.WorkReportHash{psi.Good, psi.Bad, psi.Wonky}
+		var nonEmpty []int
+		for i, l := range sets {
 			if len(l) > 0 {
-				target = &l[0]
-				break
+				nonEmpty = append(nonEmpty, i)
 			}
 		}
-		if target == nil {
+		if len(nonEmpty) == 0 {
 			return false
 		}
+		oldClass := nonEmpty[ru.t.Choose(len(nonEmpty), "judged_set")]
+		target := sets[oldClass][ru.t.Choose(len(sets[oldClass]), "judged_target")]
+		newClass := ru.t.Choose(3, "rejudge_class") // 0 good, 1 bad, 2 wonky
+		positives := []int{types.ValidatorsCount*2/3 + 1, 0, types.ValidatorsCount / 3}[newClass]
 		e, _ := epochOf(p.state.Tau)
-		v := types.Verdict{Target: *target, Age: types.U32(e)}
+		v := types.Verdict{Target: target, Age: types.U32(e)}
 		for idx := 0; idx < types.ValidatorsCount*2/3+1; idx++ {
 			who := valByEd(p.state.Kappa[idx].Ed25519)
 			if who == nil {
 				return false
 			}
-			vote := idx < types.ValidatorsCount/3
+			vote := idx < positives
 			msg := append([]byte(types.JamInvalid), target[:]...)
 			if vote {
 				msg = append([]byte(types.JamValid), target[:]...)
 			}
 			v.Votes = append(v.Votes, types.Judgement{Vote: vote, Index: types.ValidatorIndex(idx), Signature: edSign(who, msg)})
 		}
-		b.Extrinsic.Disputes = types.DisputesExtrinsic{Verdicts: []types.Verdict{v}}
-		b.Header.OffendersMark = types.OffendersMark{}
-		*offenders = nil
+		d := types.DisputesExtrinsic{Verdicts: []types.Verdict{v}, Culprits: []types.Culprit{}, Faults: []types.Fault{}}
+		offender := map[types.Ed25519Public]bool{}
+		for _, o := range psi.Offenders {
+			offender[o] = true
+		}
+		var cands []*valKey
+		for i := range validators {
+			k := validators[i].pub.Ed25519
+			inSet := false
+			for _, x := range append(append(types.ValidatorsData(nil), p.state.Kappa...), p.state.Lambda...) {
+				inSet = inSet || x.Ed25519 == k
+			}
+			if inSet && !offender[k] {
+				cands = append(cands, &validators[i])
+			}
+		}
+		var marks []types.Ed25519Public
+		switch newClass {
+		case 1:
+			if len(cands) < 2 {
+				return false
+			}
+			for _, c := range cands[:2] {
+				d.Culprits = append(d.Culprits, types.Culprit{Target: target, Key: c.pub.Ed25519, Signature: edSign(c, append([]byte(types.JamGuarantee), target[:]...))})
+			}
+			sort.Slice(d.Culprits, func(i, j int) bool { return bytes.Compare(d.Culprits[i].Key[:], d.Culprits[j].Key[:]) < 0 })
+			for _, c := range d.Culprits {
+				marks = append(marks, c.Key)
+			}
+		case 0:
+			if len(cands) < 1 {
+				return false
+			}
+			c := cands[len(cands)-1]
+			d.Faults = append(d.Faults, types.Fault{Target: target, Vote: false, Key: c.pub.Ed25519, Signature: edSign(c, append([]byte(types.JamInvalid), target[:]...))})
+			marks = append(marks, c.pub.Ed25519)
+		}
+		if newClass != oldClass {
+			ru.r.Count("fault:judged_report_judged_again_with_another_class", 1)
+		}
+		b.Extrinsic.Disputes = d
+		b.Extrinsic.Tickets = types.TicketsExtrinsic{} // tickets of the valid twin were signed for its own offender set
+		b.Extrinsic.Guarantees = types.GuaranteesExtrinsic{}
+		b.Header.OffendersMark = types.OffendersMark(append([]types.Ed25519Public{}, marks...))
+		*offenders = marks
 		fixExtrinsicHash(b)
 		return true
 	}},
